@@ -79,6 +79,18 @@ Theorem C20_at_least_law_end_to_end_partial :
          end.
 Proof. exact at_least_law_end_to_end. Qed.
 
+(* r{n,m} = n copies of r then m-n copies of (?:r)?, for a character r and n < m as written in the pattern:
+   every c{n,m} (c{n,m}?) spelled as c...cc?...c? (c...cc??...c??) *)
+Theorem C20_bounded_law_end_to_end_partial :
+  forall fl a input,
+    ok_a (f_xpath fl) a = true -> f_literal fl = false -> f_ws fl = false -> (N.of_nat (length input) < umax)%N ->
+    exists prog prog', compile true fl (show_a a) = Ok prog /\ compile true fl (show_a (bnd_a a)) = Ok prog'
+      /\ match matches prog input 0 st0, matches prog' input 0 st0 with
+         | MTrue _, MTrue _ | MFalse _, MFalse _ => True
+         | _, _ => False
+         end.
+Proof. exact bounded_law_end_to_end. Qed.
+
 Print Assumptions C20_wrap_noncapturing_spec.
 Print Assumptions C20_group_to_noncapturing_spec.
 Print Assumptions C20_alt_idempotent_spec.
@@ -94,3 +106,4 @@ Print Assumptions C20_class_alt_spec.
 Print Assumptions C20_plus_law_end_to_end_partial.
 Print Assumptions C20_optional_law_end_to_end_partial.
 Print Assumptions C20_at_least_law_end_to_end_partial.
+Print Assumptions C20_bounded_law_end_to_end_partial.
